@@ -150,3 +150,24 @@ Proof.
   apply c19_sync_done.
 Qed.
 Print Assumptions c19_paged_response_bytes.
+
+(* ---- what the unchanged library builds for each request control and extended operation (last probe of round 0), on the model ---- *)
+Definition hexd (n : N) : Ascii.ascii := Ascii.ascii_of_N (if N.ltb n 10 then 48 + n else 87 + n).
+Fixpoint tohex (l : bytes) : string :=
+  match l with [] => EmptyString | b :: r => String (hexd (N.div (Byte.to_N b) 16)) (String (hexd (N.modulo (Byte.to_N b) 16)) (tohex r)) end.
+Definition vhex (c : rawctl) : option string := option_map (fun t => tohex (encode t)) (r_val c).
+Definition xhex (e : exop) : option string := option_map (fun t => tohex (encode t)) (x_val e).
+Example c19_probe_bytes :
+  vhex (paged_results 500 (s2b "ck")) = Some "3008020201f40402636b" /\
+  vhex (make_critical (paged_results 0 [])) = Some "30050201000400" /\ r_crit (make_critical (paged_results 0 [])) = true /\
+  vhex (sync_request RefreshOnly None false) = Some "30030a0101" /\
+  vhex (sync_request RefreshAndPersist (Some (s2b "c1")) true) = Some "300a0a0103040263310101ff" /\
+  vhex (pre_read [s2b "cn"; s2b "sn"]) = Some "30080402636e0402736e" /\
+  vhex (post_read [s2b "cn"]) = Some "30040402636e" /\
+  option_map tohex (b_val (proxy_auth (s2b "dn:cn=a"))) = Some "646e3a636e3d61" /\
+  option_map tohex (b_val (txn_spec (s2b "t1"))) = Some "7431" /\
+  xhex whoami = None /\ xhex start_txn = None /\
+  xhex (passmod (Some (s2b "u")) None (Some (s2b "n"))) = Some "300680017582016e" /\
+  xhex (end_txn (s2b "t1") true) = Some "300404027431" /\
+  xhex (end_txn (s2b "t1") false) = Some "300701010004027431".
+Proof. vm_compute. repeat split. Qed.
